@@ -4,6 +4,7 @@ import (
 	"context"
 	"encoding/json"
 	"fmt"
+	"sort"
 	"strconv"
 	"strings"
 	"testing/synctest"
@@ -124,8 +125,13 @@ func echoNotifications(w *world.World, l *MLeaf, form string) ([]*sdcpb.Notifica
 			if i == 0 {
 				e.CreateAttr("xmlns", w.SI.Node(l.Path[:1]).Namespace)
 			}
-			for k, v := range pe.Keys {
-				e.CreateElement(k).SetText(v)
+			kn := make([]string, 0, len(pe.Keys))
+			for k := range pe.Keys {
+				kn = append(kn, k)
+			}
+			sort.Strings(kn)
+			for _, k := range kn {
+				e.CreateElement(k).SetText(pe.Keys[k])
 			}
 		}
 		name := l.Path[len(l.Path)-1].Name
